@@ -14,6 +14,7 @@
 From Coq Require Import ZArith List Bool.
 Import ListNotations.
 From Urwid Require Import PyBase geo_padfill_gen Geometry GeometryFacts GeometryProofs GeometryMoveProofs GeometryMoveFull.
+From Urwid Require GeometryX GeometryXProofs.
 Open Scope Z_scope.
 
 (* ------------------------------------------------------------------------------------------ *)
@@ -231,3 +232,118 @@ Example example_place :
   place (Pile [(PPack, lf 0 2 None); (PGiven 3, Leaf (LeafD 1 true 1 0 false false None [] 1 0))] 0) (4, None)
   = [Placed 0 0 0 (4, None) true false; Placed 1 0 2 (4, Some 3) false false].
 Proof. vm_compute. reflexivity. Qed.
+
+(* ------------------------------------------------------------------------------------------ *)
+(* the extended model (Model/GeometryX.v): the same widgets PLUS everything rendered at size () *)
+(* - fixed leaves, Padding / Overlay width 'pack' around them, 'pack' columns, Pile and Columns   *)
+(* rendered fixed.  Size () is written [fixed_size] = (-1, None).  [xview w] is the pair of the   *)
+(* extended view (the four methods and [v_fits]) and the extended info ([x_pack]: the size the     *)
+(* widget packs to, which is its canvas size when it is rendered fixed).                         *)
+(* ------------------------------------------------------------------------------------------ *)
+Module X.
+Import GeometryX GeometryXProofs.
+
+(* the bridge: on a tree without fixed parts the extended view IS the proved view, so every theorem above
+   speaks about the extended model too (before this round the agreement was only tested in [run_case]) *)
+Theorem extended_view_is_view_on_sized_trees :
+  forall w, sized_tree w = true -> fst (xview w) = view w /\ xc (snd (xview w)) = info w.
+Proof. exact xview_sized. Qed.
+Print Assumptions extended_view_is_view_on_sized_trees.
+
+(* [size_pos] generalised: a size at which an extended view fits is () or has positive entries *)
+Theorem fits_size_kind :
+  forall w s, v_fits (fst (xview w)) s = true -> is_fixed s = true \/ size_pos s.
+Proof. exact xfits_size_ok. Qed.
+Print Assumptions fits_size_kind.
+
+(* clause 1 for EVERY tree of the extended model and every size including () *)
+Theorem cursor_agree_x :
+  forall w s, v_fits (fst (xview w)) s = true ->
+    v_cursor (fst (xview w)) s = of_oxy (v_rcursor (fst (xview w)) s true).
+Proof. exact xcursor_agree. Qed.
+Print Assumptions cursor_agree_x.
+
+(* clause 2, whole tree: every cell of a drawn leaf reaches that leaf with translated coordinates *)
+Theorem mouse_reaches_drawn_leaf_x :
+  forall w s f1 f2 r col row,
+    v_fits (fst (xview w)) s = true ->
+    In r (v_rects (fst (xview w)) s f1) -> rc_bg r = false ->
+    in_rect (rc_x r) (rc_y r) (rc_cols r) (rc_rows r) col row ->
+    exists f, v_mouse (fst (xview w)) s col row f2 = Some (Hit (rc_id r) (col - rc_x r) (row - rc_y r) f (rc_size r)).
+Proof. exact xmouse_reaches_drawn_leaf. Qed.
+Print Assumptions mouse_reaches_drawn_leaf_x.
+
+(* the drawn leaves lie inside the canvas: [xw] / [xh] are the packed size when s = (), else (fst s, rows) *)
+Theorem leaf_rects_inside_canvas_x :
+  forall w s f r, v_fits (fst (xview w)) s = true -> In r (v_rects (fst (xview w)) s f) ->
+    0 <= rc_x r /\ rc_x r + rc_cols r <= xw (snd (xview w)) s /\ 0 <= rc_y r /\ rc_y r + rc_rows r <= xh (snd (xview w)) s.
+Proof. exact xleaf_rects_inside. Qed.
+Print Assumptions leaf_rects_inside_canvas_x.
+
+(* clause 2, one level, for a widget with fixed parts (for the others: the bridge and the theorems above):
+   a cell inside the area of a placed child is routed to exactly that child, translated by its offset *)
+Theorem mouse_hits_drawn_child_x :
+  forall w s p col row focus,
+    sized_tree w = false ->
+    v_fits (fst (xview w)) s = true -> In p (v_place (fst (xview w)) s) -> p_bg p = false ->
+    in_rect (p_x p) (p_y p) (xw (xkid_info w (p_idx p)) (p_size p)) (xh (xkid_info w (p_idx p)) (p_size p)) col row ->
+    exists f, n_route (xnodeof w) s col row focus = Some (Routed (p_idx p) (p_size p) (col - p_x p) (row - p_y p) f).
+Proof. exact xmouse_route_hits_child. Qed.
+Print Assumptions mouse_hits_drawn_child_x.
+
+Theorem mouse_to_no_other_child_x :
+  forall w s p q col row,
+    sized_tree w = false ->
+    v_fits (fst (xview w)) s = true ->
+    In p (v_place (fst (xview w)) s) -> p_bg p = false -> In q (v_place (fst (xview w)) s) -> p_bg q = false ->
+    in_rect (p_x p) (p_y p) (xw (xkid_info w (p_idx p)) (p_size p)) (xh (xkid_info w (p_idx p)) (p_size p)) col row ->
+    in_rect (p_x q) (p_y q) (xw (xkid_info w (p_idx q)) (p_size q)) (xh (xkid_info w (p_idx q)) (p_size q)) col row ->
+    p_idx p = p_idx q /\ p_size p = p_size q /\ p_x p = p_x q /\ p_y p = p_y q.
+Proof. exact xmouse_route_unique. Qed.
+Print Assumptions mouse_to_no_other_child_x.
+
+(* clause 3, one level: the move request at a cell of a selectable child that implements the method is that
+   child's answer at the translated cell *)
+Theorem move_cursor_iff_child_x :
+  forall w s p col row,
+    sized_tree w = false ->
+    v_fits (fst (xview w)) s = true -> In p (v_place (fst (xview w)) s) -> p_bg p = false ->
+    in_rect (p_x p) (p_y p) (xw (xkid_info w (p_idx p)) (p_size p)) (xh (xkid_info w (p_idx p)) (p_size p)) col row ->
+    i_hasmove (v_info (fst (xview w))) = true ->
+    i_sel (xc (xkid_info w (p_idx p))) = true -> i_hasmove (xc (xkid_info w (p_idx p))) = true ->
+    m_ok (v_move (fst (xview w)) s col row)
+    = m_ok (v_move (nth_view w (map fst (xkids w)) (p_idx p)) (p_size p) (col - p_x p) (row - p_y p)) /\
+    m_asked (v_move (fst (xview w)) s col row)
+    = m_asked (v_move (nth_view w (map fst (xkids w)) (p_idx p)) (p_size p) (col - p_x p) (row - p_y p)).
+Proof. exact xmove_iff_child. Qed.
+Print Assumptions move_cursor_iff_child_x.
+
+(* non-vacuity at size (): a Pile rendered fixed of a Columns with a 'pack' column around a fixed leaf and a
+   given column with a cursor leaf, and a Padding width 'pack' around a fixed leaf *)
+Definition fl (id w h : Z) : widget := Leaf (LeafD id false h 0 true false None [] 1 w).
+Definition example_fixed : widget :=
+  Pile [(PPack, Columns [(CPack, false, fl 0 3 2); (CGiven 4, false, lf 1 1 (Some (2, 0)))] 1 1 1);
+        (PPack, Padding (fl 2 2 1) GCenter 0 GPack 0 None 1 0)] 0.
+
+Example example_fixed_fits :
+  sized_tree example_fixed = false /\ v_fits (fst (xview example_fixed)) fixed_size = true /\
+  x_pack (snd (xview example_fixed)) = (8, 3).
+Proof. vm_compute. auto. Qed.
+
+Example example_fixed_cursor :
+  v_cursor (fst (xview example_fixed)) fixed_size = CSome 6 0 /\
+  v_rcursor (fst (xview example_fixed)) fixed_size true = Some (6, 0).
+Proof. vm_compute. auto. Qed.
+
+Example example_fixed_rects :
+  map (fun r => (rc_id r, rc_x r, rc_y r, rc_cols r, rc_rows r)) (v_rects (fst (xview example_fixed)) fixed_size true)
+  = [(0, 0, 0, 3, 2); (1, 4, 0, 4, 1); (2, 1, 2, 2, 1)].
+Proof. vm_compute. reflexivity. Qed.
+
+Example example_fixed_mouse_and_move :
+  v_mouse (fst (xview example_fixed)) fixed_size 2 2 true = Some (Hit 2 1 0 true fixed_size) /\
+  v_mouse (fst (xview example_fixed)) fixed_size 5 0 true = Some (Hit 1 1 0 true (4, None)) /\
+  let m := v_move (fst (xview example_fixed)) fixed_size 6 0 in
+  m_ok m = true /\ m_asked m = Some (1, 2, 0, (4, None)) /\ v_cursor (fst (xview (m_w m))) fixed_size = CSome 6 0.
+Proof. vm_compute. auto. Qed.
+End X.
